@@ -1,8 +1,17 @@
 /-
   Property C14 — id allocator / deposit box: live ids unique, one taker wins, stale ids never
   match.  Property theorems only; helper lemmas in Babylon/IdAlloc/Lemmas*.lean.
+
+  The transition system is `Babylon.IdAlloc.Step` (one step = one atomic operation of the real
+  code, any thread, any interleaving, any number of threads, any call history respecting the client
+  contract "only the holder of an id deallocates it, once").  The positive theorems quantify over
+  `ReachGood c`: executions all of whose states satisfy
+    * `NoWrap c`: a thread sitting at the CAS of `allocate` read the head fewer than `2^W` pushes ago;
+    * `Cap c`:    at most `2^W - 2` ids were minted (ids stay below ACTIVE_FLAG / FREE_LIST_TAIL).
+  `ida_wrap_counterexample` shows NoWrap cannot be dropped (with Cap still satisfied).
 -/
-import Babylon.IdAlloc.Model
+import Babylon.IdAlloc.LemmasUse
+import Babylon.IdAlloc.Sched
 
 namespace Babylon.Properties.C14
 open Babylon.IdAlloc Babylon.Gen.IdAlloc Babylon.Core
@@ -17,5 +26,128 @@ theorem gen_constants :
     popVersionBump = 0 ∧ pushVersionBump = 1 ∧ takeVersionBump = 1 ∧
     tail16 = 2 ^ 16 - 1 ∧ active16 = 2 ^ 16 - 2 ∧ tail32 = 2 ^ 32 - 1 ∧ active32 = 2 ^ 32 - 2 ∧
     sizeofVV16 = 4 ∧ sizeofVV32 = 8 ∧ valueOffset = 0 := by decide
+
+/-- states reachable by executions that satisfy NoWrap and Cap throughout -/
+abbrev ReachGood (c : Cfg) : State → Prop := Reachable (· = State.init c) (StepR c (Good c))
+
+/-- The free-list invariant (chain from the head is finite, duplicate-free, ends in the tail
+sentinel, its members are minted, unowned and not being pushed; ids being pushed are unowned and
+pushed once; pending pop snapshots are current iff no push happened since; flag bookkeeping)
+holds in every reachable state, for every interleaving, thread count and call history. -/
+theorem ida_invariant (c : Cfg) (s : State) (hr : ReachGood c s) : Inv c s := (reach_inv hr).1
+
+/-- **Uniqueness.**  Under NoWrap (and Cap) no allocation ever hands out an id that has an owner:
+the ghost flag `dup`, raised by the pop CAS and by the minting `fetch_add` exactly when the id they
+hand out is currently owned, is never raised. -/
+theorem ida_unique (c : Cfg) (s : State) (hr : ReachGood c s) : s.dup = false := (reach_inv hr).1.nd
+
+/-- the same, step-wise: whenever a pop CAS of thread `t` succeeds on id `cv`, or a `fetch_add`
+mints `s.nv`, that id has no owner at that moment, is not on the free list afterwards and is not
+being pushed by anybody -/
+theorem ida_unique_step (c : Cfg) (s : State) (hr : ReachGood c s) :
+    (∀ t cv cg nr, s.pc t = .a2 cv cg nr → s.headV = cv → s.headG % 2 ^ c.W = cg % 2 ^ c.W →
+        s.owner cv = none ∧ ∀ u, (s.pc u).transit ≠ some cv) ∧
+    (s.owner s.nv = none ∧ s.nv ∉ s.fl ∧ ∀ u, (s.pc u).transit ≠ some s.nv) := by
+  obtain ⟨hi, hg⟩ := reach_inv hr
+  constructor
+  · intro t cv cg nr hpc hV hG
+    have ht := hi.thr t
+    rw [hpc] at ht
+    have hmem : cv ∈ s.fl := by rw [← hV]; exact hi.head_mem (by rw [hV]; exact ht.1)
+    exact ⟨(hi.flmem cv hmem).2, fun u hu => (hi.transit_props hu).2.2 hmem⟩
+  · exact ⟨hi.high _ (Nat.le_refl _), fun hm => Nat.lt_irrefl _ (hi.flmem _ hm).1,
+      fun u hu => Nat.lt_irrefl _ (hi.transit_props hu).2.1⟩
+
+/-- **NoWrap is necessary.**  With 2-bit versions (`W = 2`, versions wrap after 4 pushes) an
+explicit 64-step execution — thread 2 stalls between reading `next[0]` and its CAS while thread 1
+recycles id 0 four times — hands id 1 to thread 2 while thread 1 still owns it.  Every state of
+this execution satisfies Cap. -/
+def wrapSched : List Move :=
+  mvAllocMint 1 ++ mvAllocMint 1 ++ mvDealloc 1 1 ++ mvDealloc 1 0 ++
+  [.alloc 2, .act 2 false, .act 2 false] ++        -- thread 2 reads head (0, 2) and next[0] = 1, then stalls
+  mvAllocPop 1 ++ mvAllocPop 1 ++                  -- thread 1 pops 0 and 1
+  mvDealloc 1 0 ++ mvAllocPop 1 ++ mvDealloc 1 0 ++ mvAllocPop 1 ++ mvDealloc 1 0 ++ mvAllocPop 1 ++
+  mvDealloc 1 0 ++                                 -- head = (0, 6) and 6 % 4 = 2 % 4
+  [.act 2 false, .act 2 false] ++                  -- thread 2's CAS succeeds with the stale next: head := 1
+  [.alloc 2, .act 2 false, .act 2 false, .act 2 false]   -- pops 1, which thread 1 still holds
+
+theorem ida_wrap_counterexample :
+    ∃ s, Reachable (· = State.init ⟨2⟩) (StepR ⟨2⟩ (Cap ⟨2⟩)) s ∧ s.dup = true := by
+  have hrun : (run ⟨2⟩ (fun s => decide (s.nv ≤ 2)) (State.init ⟨2⟩) wrapSched).map (·.dup) = some true := by
+    decide
+  cases hs : run ⟨2⟩ (fun s => decide (s.nv ≤ 2)) (State.init ⟨2⟩) wrapSched with
+  | none => rw [hs] at hrun; simp at hrun
+  | some s =>
+    rw [hs] at hrun
+    refine ⟨s, ?_, by simpa using hrun⟩
+    exact run_reachable (P := Cap ⟨2⟩) (fun s h => by simpa [Cap, Cfg.active] using h) wrapSched _ _
+      (Reachable.base rfl) hs
+
+/-- **Reuse.**  In a quiescent reachable state in which some minted id is free, an `allocate` by
+thread `t` that runs alone (only `t` takes steps) and returns has returned a previously minted,
+previously unowned id — the head of the free list, with the current version —, now owns it, and
+has not advanced `next_value`. -/
+theorem ida_reuse (c : Cfg) (s s2 : State) (t i : Nat) (hr : ReachGood c s) (hq : Quiescent s)
+    (hi : i < s.nv) (hfree : s.owner i = none)
+    (hsolo : Solo c t (callAlloc s t) s2) (hret : s2.pc t = .idle) :
+    ∃ v, s2.result t = some (v, s.headG % 2 ^ c.W) ∧ v = s.headV ∧ v < s.nv ∧ s.owner v = none ∧
+      s2.owner v = some t ∧ s2.nv = s.nv := by
+  have hinv := (reach_inv hr).1
+  obtain ⟨hv, hlt, ho⟩ := hinv.free_head hq hi hfree
+  obtain ⟨h1, h2, h3, _⟩ := solo_alloc_reuses hv hsolo hret
+  exact ⟨s.headV, h1, rfl, hlt, ho, h3, h2⟩
+
+/-- … and such a solitary allocate does return when its weak CAS does not fail spuriously. -/
+theorem ida_reuse_returns (c : Cfg) (s : State) (t i : Nat) (hr : ReachGood c s) (hq : Quiescent s)
+    (hi : i < s.nv) (hfree : s.owner i = none) :
+    ∃ s2, Solo c t (callAlloc s t) s2 ∧ s2.pc t = .idle :=
+  solo_alloc_terminates c s t ((reach_inv hr).1.free_head hq hi hfree).1
+
+/-- **for_each at quiescence** reports exactly the owned ids: the ids below `next_value` whose flag
+is ACTIVE are, in increasing order and without repetition, the ids that currently have an owner. -/
+theorem ida_for_each_quiescent (c : Cfg) (s : State) (hr : ReachGood c s) (hq : Quiescent s) :
+    forEachIds c s s.nv = (List.range s.nv).filter (fun i => (s.owner i).isSome) ∧
+    ∀ i, i ∈ forEachIds c s s.nv ↔ (s.owner i).isSome = true := by
+  have hinv := (reach_inv hr).1
+  have h1 := hinv.forEach_quiescent hq
+  refine ⟨h1, fun i => ?_⟩
+  rw [h1, List.mem_filter, List.mem_range]
+  exact ⟨fun h => h.2, fun h => ⟨hinv.owned_lt h, h⟩⟩
+
+/-! Non-vacuity: a concrete non-trivial execution of `IdAllocator<uint16_t>` satisfies every
+hypothesis used above (three threads; ids 0,1,2 minted; 1 and 0 freed, 0 reused by another thread). -/
+
+def demoSched : List Move :=
+  mvAllocMint 1 ++ mvAllocMint 2 ++ mvAllocMint 1 ++ mvDealloc 2 1 ++
+  [.alloc 3, .act 3 false, .dealloc 1 0, .act 1 false, .act 3 false, .act 1 false, .act 1 false,
+   .act 3 false,          -- thread 3's CAS fails: thread 1 pushed meanwhile
+   .act 3 false, .act 3 true, .act 3 false, .act 3 false, .act 3 false]
+
+def demoOk (s : State) : Bool := decide (s.headG < 2 ^ 16 ∧ s.nv ≤ 2 ^ 16 - 2)
+
+theorem good_of_small {c : Cfg} {s : State} (h1 : s.headG < 2 ^ c.W) (h2 : s.nv ≤ c.active) : Good c s :=
+  ⟨fun _ _ _ _ _ => by omega, h2⟩
+
+example : ∃ s, ReachGood ⟨16⟩ s ∧ Quiescent s ∧ s.nv = 3 ∧ s.fl = [1] ∧ s.owner 0 = some 3 ∧
+    s.owner 1 = none ∧ s.owner 2 = some 1 ∧ forEachIds ⟨16⟩ s s.nv = [0, 2] := by
+  cases hs : run ⟨16⟩ demoOk (State.init ⟨16⟩) demoSched with
+  | none => exact absurd hs (by decide)
+  | some s =>
+    have hreach : ReachGood ⟨16⟩ s :=
+      run_reachable (P := Good ⟨16⟩)
+        (fun s h => by
+          simp only [demoOk, decide_eq_true_eq] at h
+          exact good_of_small h.1 (by simpa [Cfg.active] using h.2))
+        demoSched _ _ (Reachable.base rfl) hs
+    have hq : Quiescent s := by
+      refine run_quiescent (n := 4) hs (by decide) (fun _ _ => rfl) ?_
+      have : (run ⟨16⟩ demoOk (State.init ⟨16⟩) demoSched).map
+          (fun s => (List.range 4).all (fun u => s.pc u = .idle)) = some true := by decide
+      rw [hs] at this; simpa using this
+    have hrest : (run ⟨16⟩ demoOk (State.init ⟨16⟩) demoSched).map
+        (fun s => decide (s.nv = 3 ∧ s.fl = [1] ∧ s.owner 0 = some 3 ∧ s.owner 1 = none ∧
+          s.owner 2 = some 1 ∧ forEachIds ⟨16⟩ s s.nv = [0, 2])) = some true := by decide
+    rw [hs] at hrest
+    exact ⟨s, hreach, hq, by simpa using hrest⟩
 
 end Babylon.Properties.C14
